@@ -12,7 +12,7 @@
 From Coq Require Import ZArith List Bool.
 Import ListNotations.
 From Urwid Require Import PyBase ListBoxView ListBoxViewProofs ListBoxWindowProofs ListBoxHistoryProofs ListBoxMouseProofs
-  ListBoxPendingProofs.
+  ListBoxPendingProofs ListBoxPageProofs.
 Open Scope Z_scope.
 
 (* --- (3) view_ok.  For every list of flow widgets with heights >= 0 (zero-height ones included),
@@ -64,17 +64,21 @@ Print Assumptions focus_rows_are_where_expected.
 (* --- (1) the two writers --- *)
 Theorem writers_establish_view_ok :
   (forall s maxrow oi s', shift_focus s maxrow oi = Ok s' ->
-     ViewOK s' /\ items s' = items s /\ focus s' = focus s /\ pend s' = pend s /\ off s' < Z.max 1 maxrow) /\
-  (forall s maxrow position oi cf s', change_focus s maxrow position oi cf = Ok s' ->
+     ViewOK s' /\ items s' = items s /\ focus s' = focus s /\ pend s' = pend s /\ off s' < Z.max 1 maxrow /\
+     vpend s' = vpend s) /\
+  (* change_focus with any snap_rows (None = maxrow - 1, or the values page up/down pass) *)
+  (forall s maxrow position oi cf snap_rows s', change_focus_sr s maxrow position oi cf snap_rows = Ok s' ->
      ViewOK s' /\ items s' = items s /\ focus s' = position /\ pend s' = pend s /\
-     exists w, nthz (items s) position = Some w).
-Proof. split; [exact shift_focus_writes | exact change_focus_writes]. Qed.
+     (exists w, nthz (items s) position = Some w) /\ vpend s' = vpend s).
+Proof. split; [exact shift_focus_writes | exact change_focus_sr_writes]. Qed.
 Print Assumptions writers_establish_view_ok.
 
-(* --- (2) any history of modelled operations (render, up/down/item keys, mouse press and wheel,
-   set_focus, direct shift_focus / change_focus / make_cursor_visible calls, walker edits [OItems])
-   interleaved with operations that are NOT modelled (page up/down, home/end, set_focus_valign:
-   [OSync], whose resulting view state is ViewOK by (1) + the syntactic scan) keeps ViewOK --- *)
+(* --- (2) any history of modelled operations (render, up / down / page up / page down / home /
+   end / item keys, mouse press and wheel, set_focus, set_focus_valign, direct shift_focus /
+   change_focus / make_cursor_visible calls, walker edits [OItems]) interleaved with arbitrary
+   operations that are NOT modelled ([OSync]: anything that leaves a ViewOK state, which by (1) +
+   the syntactic scan is everything that writes the view state through the two writers) keeps
+   ViewOK --- *)
 Theorem history_keeps_view_ok :
   forall ops s, ViewOK s -> Forall op_ok ops ->
     forall s' out, In (Ok (s', out)) (run s ops) -> ViewOK s'.
@@ -87,7 +91,7 @@ Print Assumptions history_keeps_view_ok.
 Theorem render_after_any_history :
   forall ops s s' out maxrow fflag w,
     ViewOK s -> Forall op_ok ops -> In (Ok (s', out)) (run s ops) ->
-    pend s' = PNone -> heights_ok (items s') -> 1 <= maxrow ->
+    pend s' = PNone -> vpend s' = None -> heights_ok (items s') -> 1 <= maxrow ->
     nthz (items s') (focus s') = Some w -> cursor_ok w ->
     exists p,
       0 <= p <= zlen (all_rows (items s')) /\
@@ -101,6 +105,62 @@ Theorem render_after_any_history :
 Proof. exact render_after_history_lemma. Qed.
 Print Assumptions render_after_any_history.
 
+(* --- page up / page down / home / end / set_focus_valign are inside the model: every state they
+   return satisfies ViewOK (they are also covered by history_keeps_view_ok through [OKey] and
+   [OValign]; stated separately because they replace the former un-modelled stand-in) --- *)
+Theorem page_and_alignment_ops_keep_view_ok :
+  (forall s maxrow s' b, ViewOK s -> keypress_page_up s maxrow = Ok (s', b) -> ViewOK s') /\
+  (forall s maxrow s' b, ViewOK s -> keypress_page_down s maxrow = Ok (s', b) -> ViewOK s') /\
+  (forall s maxrow k s' b, ViewOK s -> keypress s maxrow k = Ok (s', b) -> ViewOK s') /\
+  (forall s va, ViewOK s -> ViewOK (set_focus_valign s va)) /\
+  (forall s maxrow fflag va s', ViewOK s -> set_focus_valign_complete s maxrow fflag va = Ok s' -> ViewOK s').
+Proof.
+  split; [exact pres_page_up|]. split; [exact pres_page_down|]. split; [exact pres_keypress|].
+  split; [intros s va H; now apply viewok_set_vpend | exact pres_valign_complete].
+Qed.
+Print Assumptions page_and_alignment_ops_keep_view_ok.
+
+(* --- when does 'page down' raise?  keypress_page_down either handles the key (and leaves a ViewOK
+   state over the same widgets) or raises ListBoxError - nothing else - and it raises ONLY IF one
+   of the candidate widgets it gathered (pd_candidates: the widgets from the old focus downwards,
+   with their row offsets on the new page, minus a first entry that is off the edge) has rows and
+   lies completely above the top of the new page (row_offset + rows <= 0): change_focus is then
+   asked to place a widget entirely above the box ("Invalid offset_inset: N, only N rows in
+   target!").  Without such a candidate the key is always handled. --- *)
+Theorem page_down_raises_only_for_a_candidate_above_the_page :
+  forall s m,
+    ViewOK s -> WidgetsOK (items s) -> 1 <= m ->
+    (exists s' b, keypress_page_down s m = Ok (s', b) /\ ViewOK s' /\ items s' = items s) \/
+    (keypress_page_down s m = Err ListBoxError /\
+     exists v, visible (items s) (focus s) (off s) (inum s) (iden s) m true = Ok (Some v) /\
+               BadCand (pd_candidates s m v)).
+Proof. exact page_down_outcome. Qed.
+Print Assumptions page_down_raises_only_for_a_candidate_above_the_page.
+
+Theorem page_down_handled_without_such_a_candidate :
+  forall s m v,
+    ViewOK s -> WidgetsOK (items s) -> 1 <= m ->
+    visible (items s) (focus s) (off s) (inum s) (iden s) m true = Ok (Some v) ->
+    (forall x, In x (pd_candidates s m v) -> t_rows x = 0 \/ 0 < t_ro x + t_rows x) ->
+    exists s' b, keypress_page_down s m = Ok (s', b) /\ ViewOK s' /\ items s' = items s.
+Proof. exact page_down_ok. Qed.
+Print Assumptions page_down_handled_without_such_a_candidate.
+
+(* ... and the situation is reachable with ordinary widgets (no zero-height ones): a one-row text, a
+   one-row selectable widget and a two-row text in a box of two rows, focus on the first widget
+   aligned to the top, 'page down' (replayed on the implementation by corpus/C07/corners.json and
+   corpus/C07/repro_page_down_raises.py).  So "page down never raises" is REFUTED. *)
+Definition page_down_never_raises_full : Prop :=
+  forall s m, ViewOK s -> WidgetsOK (items s) -> 1 <= m -> exists s' b, keypress_page_down s m = Ok (s', b).
+Theorem page_down_never_raises_refuted : ~ page_down_never_raises_full.
+Proof. exact page_down_never_raises_refutation. Qed.
+Print Assumptions page_down_never_raises_refuted.
+
+(* NOT proved (stated): 'page up' never raises.  No counterexample in the exhaustive small scopes
+   or in any run (correspondence + regression oracle); 'up', 'down', 'home', 'end' likewise. *)
+Definition page_up_never_raises_full : Prop :=
+  forall s m, ViewOK s -> WidgetsOK (items s) -> 1 <= m -> exists s' b, keypress_page_up s m = Ok (s', b).
+
 (* an empty list box renders blank *)
 Theorem empty_list_renders_blank :
   forall its f o n d maxrow fflag, nthz its f = None ->
@@ -111,7 +171,7 @@ Print Assumptions empty_list_renders_blank.
 (* --- the mouse clause: a button-1 press on a row that shows a selectable item makes it the focus --- *)
 Theorem mouse_press_focuses :
   forall s maxrow row pos r win cur,
-    ViewOK s -> pend s = PNone -> heights_ok (items s) -> 1 <= maxrow ->
+    ViewOK s -> pend s = PNone -> vpend s = None -> heights_ok (items s) -> 1 <= maxrow ->
     (forall w, nthz (items s) (focus s) = Some w -> cursor_ok w) ->
     render s maxrow true = Ok (s, (win, cur)) ->
     nthz win row = Some (pos, r) -> 0 <= pos -> sel_at (items s) pos = true ->
@@ -135,7 +195,8 @@ Theorem render_never_raises_any_history :
     WidgetsOK (items s') -> 1 <= maxrow ->
     exists s'' win cur,
       render s' maxrow fflag = Ok (s'', (win, cur)) /\
-      pend s'' = PNone /\ items s'' = items s' /\ ViewOK s'' /\ ShowsWindow s'' maxrow fflag win cur.
+      pend s'' = PNone /\ items s'' = items s' /\ ViewOK s'' /\ ShowsWindow s'' maxrow fflag win cur /\
+      vpend s'' = None.
 Proof. exact render_any_history_lemma. Qed.
 Print Assumptions render_never_raises_any_history.
 
@@ -145,7 +206,8 @@ Theorem render_never_raises :
     ViewOK s -> WidgetsOK (items s) -> 1 <= maxrow ->
     exists s' win cur,
       render s maxrow fflag = Ok (s', (win, cur)) /\
-      pend s' = PNone /\ items s' = items s /\ ViewOK s' /\ ShowsWindow s' maxrow fflag win cur.
+      pend s' = PNone /\ items s' = items s /\ ViewOK s' /\ ShowsWindow s' maxrow fflag win cur /\
+      vpend s' = None.
 Proof. exact render_ok_lemma. Qed.
 Print Assumptions render_never_raises.
 
@@ -153,7 +215,7 @@ Print Assumptions render_never_raises.
    keeps 2 items; render) *)
 Example stale_pending_now_renders :
   let it := {| i_rows := 1; i_sel := true; i_cy := None |} in
-  let s := {| items := [it; it; it; it; it]; focus := 4; off := 0; inum := 0; iden := 1; pend := PNone |} in
+  let s := {| items := [it; it; it; it; it]; focus := 4; off := 0; inum := 0; iden := 1; pend := PNone; vpend := None |} in
   map (fun r => match r with
                 | Ok (s, OutView rows _) => (focus s, rows)
                 | Ok (s, _) => (focus s, [])
@@ -183,7 +245,7 @@ Example render_somewhere :
 Proof. vm_compute. repeat split; reflexivity. Qed.
 
 Example history_somewhere :
-  let s0 := {| items := ex_items; focus := 0; off := 0; inum := 0; iden := 1; pend := PFirst |} in
+  let s0 := {| items := ex_items; focus := 0; off := 0; inum := 0; iden := 1; pend := PFirst; vpend := None |} in
   map (fun r => match r with
                 | Ok (s, OutView rows _) => (focus s, off s, rows)
                 | Ok (s, _) => (focus s, off s, [])
